@@ -53,7 +53,7 @@ def spec_cases(ctx, cfg, coverage=False):
         q = merged[k]
         if any(v["ctlfix"] == p["ctlfix"] for v in q["variants"]):
             raise lib.Machinery(f"case printed twice (model not deterministic): {k}")
-        for f in ("expected", "unitary", "captured", "bodyops", "body"):
+        for f in ("expected", "unitary", "captured", "bodyops", "body", "linearok", "mayreject"):
             if q[f] != p[f]:
                 raise lib.Machinery(f"{k}: field {f} depends on the model variant")
         q["variants"].append(var)
@@ -61,8 +61,8 @@ def spec_cases(ctx, cfg, coverage=False):
     for p in cases:
         if [v["ctlfix"] for v in p["variants"]] != [False, True]:
             raise lib.Machinery(f"{p['key']}: variants {p['variants']}")
-        # the pinned variant is the reference for reporting
-        p["lowered"], p["classes"], p["welltyped"] = (p["variants"][0][f] for f in ("lowered", "classes", "welltyped"))
+        # the repaired variant (the tree since 2399a57) is the reference for reporting
+        p["lowered"], p["classes"], p["welltyped"] = (p["variants"][-1][f] for f in ("lowered", "classes", "welltyped"))
     return cases, r
 
 
@@ -124,8 +124,18 @@ def compare_case(p, o):
     out = []
     if o["status"] in ("machinery",):
         raise lib.Machinery(f"case {key} could not be observed: {o.get('error')}\n{o.get('tb', '')}")
+    if o["status"] == "rejected" and p["mayreject"]:
+        return []  # control(array[i]) may be refused with a located error
+    if o["status"] == "crash" and p["mayreject"]:
+        return [("subscripted-control-crash", f"{key}: control(array[0]) neither lowered nor rejected with a located "
+                                              f"error: {o.get('error')} {o.get('tb', '')[-300:]}")]
     if o["status"] != "ok":
         return [(f"not-compiled:{key}", f"spec-valid modifier program is {o['status']}: {o.get('error')}")]
+    if not all(p["linearok"]) and ("shape_error" in o or not o["valid"]):
+        # predicted by the model: captured wires are read before the power operands are compiled
+        return [("power-operand-borrows-captured-qubit",
+                 f"{key}: the exponent g(q) borrows q, which the block also captures; the call consumes a stale wire of q: "
+                 f"{o.get('shape_error') or o.get('invalid_msg', '')[:200]}")]
     if "shape_error" in o:
         return [(f"unexpected-hugr-shape:{key}", o["shape_error"])]
     nlev = len(p["expected"])
@@ -135,18 +145,22 @@ def compare_case(p, o):
     while g["sites"]:
         chains.append(norm_chain(g["sites"][0]["chain"]))
         g = g["wrapped"][0] if g["wrapped"] else {"sites": []}
-    var = next((v for v in p["variants"] if v["lowered"] == chains), None)
+    var = next((v for v in reversed(p["variants"]) if v["lowered"] == chains), None)
+    matched = var is not None
     if var is None:
-        var = next((v for v in p["variants"] if all(c == l or c == e for c, l, e in zip(chains, v["lowered"], p["expected"]))
-                    and len(chains) == nlev), p["variants"][0])
-    illtyped_predicted = not all(var["welltyped"])
+        var = next((v for v in reversed(p["variants"])
+                    if all(c == l or c == e for c, l, e in zip(chains, v["lowered"], p["expected"])) and len(chains) == nlev),
+                   p["variants"][-1])
+    illtyped_predicted = matched and not all(var["welltyped"])
     for lvl in range(nlev):
         where = f"{key} block {lvl + 1}"
         if len(f["sites"]) != 1:
             out.append((f"unexplained-lowering:{where}", f"{len(f['sites'])} modifier call sites in {f['name']}, expected 1"))
             return out
-        if f["ops"]:
-            out.append((f"body-ops-misplaced:{where}", f"enclosing function {f['name']} contains ops {f['ops']}"))
+        outside = ["call:g"] * sum(1 for m in p["expected"][lvl] if m["op"] == "Power" and m["opnd"] == "g(q)")
+        if f["ops"] != outside:
+            out.append((f"body-ops-misplaced:{where}", f"enclosing function {f['name']} contains ops {f['ops']}, "
+                                                       f"expected {outside}"))
         site, w = f["sites"][0], f["wrapped"][0]
         got = norm_chain(site["chain"])
         exp, low, classes = p["expected"][lvl], var["lowered"][lvl], var["classes"][lvl]
@@ -179,7 +193,7 @@ def compare_case(p, o):
                 out.append(("control-arities-crossed", f"{key}: HUGR does not validate: {o.get('invalid_msg', '')[:200]}"))
         else:
             out.append((f"invalid-hugr:{key}", o.get("invalid_msg", "")[:300]))
-    elif illtyped_predicted:
+    elif illtyped_predicted and "shape_error" not in o:
         raise lib.Machinery(f"{key}: model predicts an ill-typed call but the validator accepts the HUGR")
     return out
 
@@ -199,8 +213,9 @@ def report(ctx, findings, seed):
     for key, items in groups.items():
         p, o, text = items[0]
         ctx.violation(key, f"{len(items)} case(s), e.g. {text}\n{um.render(p, 'test', seed)}",
-                      {"seed": seed, "cases": [{"record": {k: x[0][k] for k in ("case", "expected", "lowered", "classes", "welltyped",
-                                                                                "unitary", "routes", "captured", "bodyops", "body")},
+                      {"seed": seed, "cases": [{"record": {k: x[0][k] for k in ("case", "expected", "lowered", "classes", "welltyped", "linearok",
+                                                                                "mayreject", "unitary", "routes", "captured", "bodyops",
+                                                                                "body")},
                                                 "variants": x[0]["variants"], "text": x[2]} for x in items[:8]]})
 
 
@@ -302,11 +317,13 @@ def selftest(ctx):
         if not compare_case(sample[j], o2):
             raise lib.Machinery("selftest: missing body op not flagged")
     # 3. a deviating case must be reported under the model's class, and as unexplained when the model is wrong too
-    k = next((k for k, (pp, oo) in enumerate(zip(sample, obs)) if pp["classes"][0] and oo["status"] == "ok"), None)
+    k = next((k for k, (pp, oo) in enumerate(zip(sample, obs))
+              if oo["status"] == "ok" and all(pp["linearok"]) and all(v["classes"][0] and all(v["welltyped"]) for v in pp["variants"])),
+             None)
     if k is not None:
         keys = {x for x, _ in compare_case(sample[k], obs[k])}
-        if not keys >= set(sample[k]["classes"][0]):
-            raise lib.Machinery(f"selftest: deviation classes {sample[k]['classes'][0]} not reported, got {keys}")
+        if not keys >= set(sample[k]["variants"][-1]["classes"][0]):
+            raise lib.Machinery(f"selftest: deviation classes {sample[k]['variants'][-1]['classes'][0]} not reported, got {keys}")
         p2 = cp(sample[k])
         for v in p2["variants"]:
             v["lowered"][0] = list(reversed(v["lowered"][0])) + v["lowered"][0]
